@@ -142,6 +142,14 @@ def c13(tier, seed):
     for j, (smt, pct) in enumerate([([70, 70, 70, 0], 40), ([10, 80, 80, 90], 50), ([90, 20, 60, 40], 35), ([30, 90, 30, 90], 45)]):
         scs.append(S(["Maize", "Wheat", "Tomato", "Sorghum"][j], ["SandyLoam", "Loam", "Clay", "Sand"][j], seed=seed + 70 + j, regime="arid",
                      irr={"method": 1, "kw": {"SMT": smt}}, iwc={"wc_type": "Pct", "value": [pct]}, seasons=2, off_season=(j % 2 == 1)))
+    # schedules with records outside the simulation window (before the start, after the end), several seasons
+    for j, (crop, seasons, lead) in enumerate([("Maize", 2, 0), ("Sorghum", 3, 12), ("Tomato", 2, 0)]):
+        p0 = dt.date(2001, 4, 20)
+        recs = [[L.dstr(p0 + dt.timedelta(days=d)), a] for d, a in ((8, 22), (30, 35), (61, 18), (365 + 15, 27), (365 + 70, 31))]
+        recs += [[L.dstr(p0 - dt.timedelta(days=lead + k)), 20 + k % 7] for k in (45, 60, 75, 90, 110, 130)]          # before the start
+        recs += [[L.dstr(p0 + dt.timedelta(days=365 * seasons + 300)), 25]]                                          # after the end
+        scs.append(S(crop, ["SandyLoam", "Loam", "Clay"][j], seed=seed + 90 + j, seasons=seasons, lead=lead, regime="arid",
+                     irr={"method": 3, "schedule": recs, "kw": {"MaxIrr": 30}}))
     n_each = 40 if tier == "thorough" else 3
     for method in range(6):
         for j in range(n_each):
